@@ -40,7 +40,8 @@ def main():
     checks = [pid]
     if "--checks" in sys.argv:
         checks = sys.argv[sys.argv.index("--checks") + 1].split()
-    src = f"/tmp/mut-{pid}/out"
+    tag = pid if name.endswith("-a") else name.replace("-", "")
+    src = f"/tmp/mut-{tag}/out"
     dst = os.path.join(ROOT, "seeded", name)
     os.makedirs(dst, exist_ok=True)
     if os.path.isdir(src):
@@ -77,7 +78,7 @@ def main():
         print(name, json.dumps(ver, indent=1))
     finally:
         sh(f"git -C /repo worktree remove --force {WT}")
-        sh(f"git -C /repo worktree remove --force /tmp/mut-{pid}")
+        sh(f"git -C /repo worktree remove --force /tmp/mut-{tag}")
 
 
 if __name__ == "__main__":
